@@ -79,7 +79,15 @@ func (b *builder) variant(base gen.MsgSpec) (gen.MsgSpec, string) {
 	}
 	ops := b.r.Range(1, 3)
 	for ; ops > 0; ops-- {
-		switch b.r.Intn(10) {
+		switch b.r.Intn(11) {
+		case 10: // an empty parameter at the end of the first via (stray ';'), alone or in front of a further list element
+			if i := m.FirstOf("via"); i >= 0 && !strings.ContainsAny(m.Hdrs[i].Val, ",\"") && strings.Contains(m.Hdrs[i].Val, ";branch=") {
+				m.Hdrs[i].Val += ";"
+				if b.r.Chance(1, 2) {
+					m.Hdrs[i].Val += b.r.Pick([]string{",", ", ", " ,"}) + "SIP/2.0/UDP " + b.g.Host() + ";branch=z9hG4bK" + strconv.Itoa(b.r.Intn(1<<30))
+				}
+				what = append(what, "via-semi")
+			}
 		case 0: // insert other headers
 			for k := b.r.Range(1, 3); k > 0; k-- {
 				p := b.r.Intn(len(m.Hdrs) + 1)
